@@ -663,9 +663,15 @@ def init_order(ctx, o):
     g = ctx.graph(S, 'simulate')
     n_loops = 0
     for n in g.nodes.values():
-        if n.kind != 'for' or not isinstance(n.ast.target, ast.Name):
+        if n.kind != 'for':
             continue
-        v = n.ast.target.id
+        tgt14, iter14 = n.ast.target, n.ast.iter
+        if isinstance(tgt14, ast.Tuple) and len(tgt14.elts) == 2 and isinstance(iter14, ast.Call) and isinstance(iter14.func, ast.Name) and iter14.func.id == 'enumerate' \
+                and iter14.args:
+            tgt14, iter14 = tgt14.elts[1], iter14.args[0]          # `for count, asset in enumerate(<registry>, 1)`: the same elements in the same order
+        if not isinstance(tgt14, ast.Name):
+            continue
+        v = tgt14.id
         # decided on the supergraph: the call may sit in a one-line helper the loop body calls (`self._initialize_asset(asset)`)
         region = g.reach([m_ for l_, m_ in g.succ[n.id] if l_ == 'T'], avoid={n.id}, follow=lambda l_: l_ != 'exc')
         inits = [x for nid in region for x in calls_at(g, g.nodes[nid]) if call_attr(x) == 'initialize'
@@ -674,8 +680,9 @@ def init_order(ctx, o):
             continue
         n_loops += 1
         o.count()
-        it = ast.unparse(subst(n.ast.iter, FrameEnv(n.frame)))
-        if it != 'self._assets':
+        it = ast.unparse(subst(iter14, FrameEnv(n.frame))).replace(' ', '')
+        # a snapshot of the registry lists the same assets in the same order (whether assets registered during the pass are reached is C20's question)
+        if it not in ('self._assets', 'tuple(self._assets)', 'list(self._assets)', 'self._assets[:]', 'self._assets.copy()'):
             o.fail(P, 'System.simulate', n.ast.iter, f'the assets are initialised by iterating `{it}` instead of the registry in registration order: the same seed gives a different '
                    'evolution when names / ids differ between two otherwise identical runs', node=n)
         else:
